@@ -522,6 +522,62 @@ def m_range_next(inclusive):
     return f
 
 
+def iter_elem(I, st, it):
+    """an abstract element of an iterator value built from ranges and closure adaptors; None if not understood.
+    Running a `map` adaptor's closure records its events (memory reads etc.) like any call."""
+    it = _deref(I, st, it)
+    if it.kind == "agg" and it.name == "iter:map":
+        inner = iter_elem(I, st, it.fields[0])
+        if inner is None:
+            return None
+        return I.call_closure(st, it.fields[1], [inner])
+    ints = []
+    incl = False
+    if it.kind == "agg" and str(it.name).split("<")[0].endswith(("Range", "RangeInclusive")):
+        ints = [x for x in it.fields if x.kind == "int"]
+        incl = str(it.name).split("<")[0].endswith("RangeInclusive")
+    elif it.kind == "top" and it.tag and it.tag[0] == "range":
+        ints = list(it.tag[1])
+        incl = True
+    if len(ints) >= 2:
+        lo, hi = ints[0], ints[1]
+        top = hi.hi if incl else hi.hi - 1
+        d = lo.deps() | hi.deps()
+        ex = lo.is_const() and hi.exact
+        pv = IntV.top(lo.ty, d, lo.lo, max(top, lo.lo), exact=ex)
+        if ex:
+            pv = IntV(pv.ty, pv.bits, pv.lo, pv.hi, None, True, hi.lineage, full=hi.full)
+        return pv
+    return None
+
+
+def m_iter_map(I, st, args, dest_ty, *r):
+    return AggV("iter:map", [args[0], args[1]])
+
+
+def m_for_each(I, st, args, dest_ty, fn, b, line, fref):
+    """Iterator::for_each(f): f runs zero or more times: least fixpoint of (state join state-after-one-run)"""
+    it, clos = args[0], args[1]
+    for rnd in range(5):
+        before = st.copy()
+        elem = iter_elem(I, st, it)
+        if elem is None:
+            raise Unsupported("for_each over an iterator that is not a range/adaptor chain")
+        r = I.call_closure(st, clos, [elem])
+        if r is None and not st.dead:
+            raise Unsupported("for_each: closure body not available")
+        if st.dead:
+            # the closure diverges whenever it runs: only the zero-iteration outcome continues
+            st.frames, st.pc, st.refined, st.corr, st.afacts, st.rel, st.dead = before.frames, before.pc, before.refined, before.corr, before.afacts, before.rel, False
+            return UNIT
+        j = I.join_states(before, st, len(st.frames) - 1, widen=rnd >= 2)
+        stable = I.states_equal(j, before)
+        st.frames, st.pc, st.refined, st.corr, st.afacts, st.rel = j.frames, j.pc, j.refined, j.corr, j.afacts, j.rel
+        if stable:
+            return UNIT
+    raise Unsupported("for_each: no fixpoint")
+
+
 def m_range_incl_new(I, st, args, dest_ty, *r):
     return TopV(dest_ty, args[0].deps() | args[1].deps(), tag=("range", (args[0], args[1])))
 
@@ -631,6 +687,8 @@ MODELS = [(re.compile(p), f) for p, f in [
     (r"Enumerate<I> as std::iter::Iterator>::next$", m_enumerate_next),
     (r"as std::iter::Iterator>::next$", m_iter_next_top),
     (r"IntoIterator>::into_iter$", m_identity),
+    (r"Iterator::map(::<|$)|Iterator>::map(::<|$)", m_iter_map),
+    (r"Iterator::for_each(::<|$)|Iterator>::for_each(::<|$)", m_for_each),
     (r"Iterator::enumerate$|Iterator::copied$", m_identity),
     (r"ops::Index<I> for str>::index$|<std::string::String as std::ops::Index<I>>::index$", m_index_str),
     (r"ops::Index<I>>::index$|ops::Index<I> for str>::index$|ops::IndexMut", m_index_opaque),
